@@ -195,7 +195,8 @@ pub fn gen_layout_pair(r: &mut Rng) -> (String, String) {
         let lw = w.to_lowercase();
         let w2 = if ["and", "or", "xor", "not", "div", "mod", "true", "false"].contains(&lw.as_str()) && !w.starts_with('\'') { rand_case(r, w) } else { w.clone() };
         var.push_str(&w2);
-        let k = 1 + r.below(2); for _ in 0..k { var.push_str(&rand_sep(r)); }
+        // a `//` comment directly after the token `/` would read as `///…`: that is not "a comment between tokens"
+        let k = 1 + r.below(2); for j in 0..k { let sep = rand_sep(r); if j == 0 && w2 == "/" && sep.starts_with('/') { var.push(' '); } var.push_str(&sep); }
     }
     (base, var)
 }
